@@ -10,6 +10,10 @@ THEOREMS = [
     ("EG.props.C05", "C05_chain_allow"),
     ("EG.props.C05", "C05_mini_denied_never_dispatched"),
     ("EG.props.C05", "C05_mini_not_denied_unaffected"),
+    ("EG.props.C05", "C05_mini_cached_enforced"),
+    ("EG.props.C05", "C05_mini_cached_enforced_general"),
+    ("EG.props.C05", "C05_refuted_q_mapped_entry_dead"),
+    ("EG.props.C05", "C05_refuted_q_hit_skips_visited_rules"),
 ]
 HARNESSES = [
     dict(name="ipf", pkg="pkg/util/ipfilter", files=["harness/ipfilter/zz_verif_c05_test.go"],
